@@ -14,6 +14,7 @@
  R6 padding cache : the cached design span loss is raised by the att_in of the fibre that was padded (and initialised from span_loss).
  Rx export keys   : each loaded parameter is exported under the key its loader reads it from.
  R7 design inputs : budget formulas and edge weights of the auto-design (shared with C09-R1, C08-R2).
+ Rz sentinel      : fields defaulted when None are None when absent from the input (loader .get without another default).
 """
 import ast
 
@@ -321,8 +322,16 @@ def r7_design_inputs(ctx):
     edge_weight_rule(ctx, 'R7.edge-weight')
 
 
+def rs_sentinel(ctx):
+    """Rz: a field that the design fills with a configured default when it is None (connector losses ...) is None when the input does
+    not give it: its loader uses .get('<field>') without another default"""
+    from ..presence import sentinel_rule
+    sentinel_rule(ctx, 'Rz.sentinel', 'the value would be exported and reloaded as an explicit 0')
+    ctx.need('Rz.sentinel', 2)
+
+
 from ..presence import rule_for as _presence_rule
 
 RULES_PRESENCE = ('Rp.presence', _presence_rule('C17', 'a value of exactly 0 would be exported as missing and re-designed on reload'))
 
-RULES = [('R5.handoff', r5_handoff), ('R1.bracket', r1_bracket), ('R2.completeness', r2_completeness), ('R3.fix-point', r3_fixpoints), ('R4.keys', r4_keys), RULES_PRESENCE, ('R6.padding-cache', r6_padding_cache), ('Rx.export-keys', rx_export_keys), ('R7.design-inputs', r7_design_inputs)]
+RULES = [('R5.handoff', r5_handoff), ('R1.bracket', r1_bracket), ('R2.completeness', r2_completeness), ('R3.fix-point', r3_fixpoints), ('R4.keys', r4_keys), RULES_PRESENCE, ('R6.padding-cache', r6_padding_cache), ('Rx.export-keys', rx_export_keys), ('R7.design-inputs', r7_design_inputs), ('Rz.sentinel', rs_sentinel)]
